@@ -49,7 +49,7 @@ FDigit == {"0","1","2","3","4","5","6","7","8","9"}
 ValidName(n) == /\ Len(n) > 0 /\ SubSeq(n, 1, 1) \notin FDigit
                 /\ \A i \in 1..Len(n) : SubSeq(n, i, i) \in FLower \cup FDigit \cup {"-"}
 
-\* registration entries:  [name, args (sorts n/s/b/object), ret, beh (const/arg/panic/partial), def (typed/none)]
+\* registration entries:  [name, args (sorts n/s/b/object), ret, beh (const/arg/panic/partial/ext), def (typed/none)]
 Info(n, a, r, b, d) == [name |-> n, args |-> a, ret |-> r, beh |-> b, def |-> d]
 RECURSIVE RegAll(_, _, _)
 RegAll(t, batch, g) == IF batch = << >> THEN t
@@ -110,6 +110,8 @@ EvalB(e) ==
                                            [] Len(cv) = 2 -> Fn2(s.name, cv[1], cv[2]) [] OTHER -> Fn3(s.name, cv[1], cv[2], cv[3])]
              [] s.beh = "const" -> [err |-> FALSE, calls |-> a.calls, v |-> TypedConst(s.ret, s.gen, "g" \o ToString(s.gen), s.gen % 2 = 1)]
              [] s.beh = "arg" -> [err |-> FALSE, calls |-> a.calls, v |-> cv[1]]
+             [] s.beh = "ext" ->            \* consults state outside the data tree: the number of registrations so far, at the time of THIS run
+                    [err |-> FALSE, calls |-> a.calls, v |-> TypedConst(s.ret, gen, "g" \o ToString(gen), gen % 2 = 1)]
              [] s.beh = "partial" ->        \* fails for one class of its (converted) first argument only; a failure is confined to its call
                     IF Len(cv) > 0 /\ ~BadArg(cv[1]) THEN [err |-> FALSE, calls |-> a.calls, v |-> cv[1]]
                     ELSE IF s.def = "typed" THEN [err |-> FALSE, calls |-> a.calls, v |-> TypedConst(s.ret, 99, "def", TRUE)]
@@ -146,7 +148,9 @@ InfoPool == {Info("my-fn", <<"n">>, "n", "arg", "typed"), Info("my-fn", <<"s">>,
              Info("string", <<"n">>, "n", "arg", "typed"),
              \* functions that fail for one operand class only (empty string / NaN / false) and echo every other operand
              Info("my-fn", <<"s">>, "s", "partial", "typed"), Info("my-fn", <<"n">>, "n", "partial", "none"), Info("x2", <<"b">>, "b", "partial", "typed"),
-             Info("k2", <<"s", "b">>, "s", "partial", "typed")}
+             Info("k2", <<"s", "b">>, "s", "partial", "typed"),
+             \* functions whose answer depends on state outside the tree (it changes between runs of one machine)
+             Info("my-fn", <<"s">>, "n", "ext", "typed"), Info("x2", <<"b">>, "s", "ext", "typed"), Info("k2", <<"s", "b">>, "b", "ext", "typed")}
 ArgLists == {<< >>, <<NumE(1)>>, <<LitE("12")>>, <<NumE(0), LitE("x")>>, <<LitE("ab"), LitE("b")>>, <<FCall("true", << >>)>>,
              <<RelE("vabs")>>, <<RelE("vnum")>>, <<RelE("a"), NumE(2)>>}
 Calls1(u_) == {FCall(f, as) : f \in FnPool \ {"-x"}, as \in ArgLists}
